@@ -14,7 +14,7 @@ from ..monitors import algebra
 DECIDING_MONITORS = ["C14.ledger", "C14.add.stats", "C14.invalid"]
 PASSIVE_UNDER_TESTS = True
 RULE = ("a shadow ledger of (value, weight) pairs, all inside the bins, is entered into 1D histograms by construction, fill, fill_n over "
-        "random chunkings, sums of partial histograms, copies and positive rescalings in random histories; after every step statistics "
+        "random chunkings, sums of partial histograms, copies, positive rescalings and refused additions (other bins) in random histories; after every step statistics "
         "(weight, sum, sum2, min, max; mean / variance / std; median after unweighted construction) are compared with math.fsum over the "
         "ledger (rel 1e-9); after subtraction, array arithmetic (free-arithmetics mode) and construction from bare frequencies every "
         "field must be NaN; empty histograms report weight 0 and NaN mean; non-trivial = ledger with >= 3 values, >= 2 entry paths and "
@@ -183,7 +183,7 @@ def one_history(ctx, index, rng: random.Random):
         check_stats(rec, h, lv, lw_full, op="construct", median=med, detail={"log": log})
     combos = 0
     for _ in range(rng.randint(2, 8 if ctx.quick else 16)):
-        op = rng.choice(["fill", "fill", "fill_n", "fill_n", "add", "iadd", "scale", "copy", "sum3"])
+        op = rng.choice(["fill", "fill", "fill_n", "fill_n", "add", "iadd", "scale", "copy", "sum3", "refused_iadd"])
         try:
             with warnings.catch_warnings():
                 warnings.simplefilter("ignore")
@@ -218,6 +218,22 @@ def one_history(ctx, index, rng: random.Random):
                         h = sum([h] + others)
                     combos += 1
                     paths.add("add")
+                elif op == "refused_iadd":
+                    # an addition that is refused (other bins) leaves the statistics what they were
+                    oe = np.array(list(e) + [e[-1] + 1.0, e[-1] + 2.5])
+                    g = physt.h1(np.asarray([rng.uniform(lo, hi + 2.5) for _ in range(rng.randint(1, 6))]), oe)
+                    try:
+                        if rng.random() < 0.7:
+                            h += g
+                        else:
+                            _ = h + g
+                        accepted = True
+                    except Exception:
+                        accepted = False
+                    if accepted:
+                        rec.case(["refused_iadd accepted", adaptive], False, cls="accepted_other_bins")
+                        return
+                    paths.add("refused")
                 elif op == "scale":
                     c = rng.choice([2, 0.5, 3.0, 0.25, np.float64(1.5), 10, np.int64(2), np.float32(0.5), np.int32(3), np.float32(4.0)])
                     how = rng.randrange(4)
